@@ -305,6 +305,22 @@ fn gen_bl(args: &Args, rng: &mut Rng, emit: &mut dyn FnMut(String)) {
             }
         }
     }
+    // bit sweep: every single bit, every all-ones prefix, every nibble position and bit-plus-one of each
+    // field (a width selected by a mask that is off by a nibble shows only on values such as 2^76)
+    for (field, bits) in [(0u32, 128u32), (1, 48), (2, 112)] {
+        for k in 0..bits {
+            let one: u128 = 1u128 << k;
+            let pats = [one, one.wrapping_sub(1), (0xFu128 << k) & if bits >= 128 { u128::MAX } else { (1u128 << bits) - 1 }, one | 1];
+            for v in pats {
+                let (cci, tsi, toi) = match field {
+                    0 => (v, 1u128, 1u128),
+                    1 => (0u128, v, 1u128),
+                    _ => (0u128, 1u128, v),
+                };
+                emit(format!("BL 0 {:x} {:x} {:x} 0 0 0", cci, tsi, toi));
+            }
+        }
+    }
     // outside the property's ranges (TSI >= 2^48, TOI >= 2^112, PSI >= 4): model correspondence only
     for _ in 0..200 {
         let cci = below128(rng, 128);
